@@ -463,6 +463,30 @@ func buildCatalogue(c *Ctx) []buildCase {
 			f.Services = []*spec.Service{{Name: "EmptyService"}}
 		})
 	}})
+	// streaming RPCs (valid protobuf; the HTTP generators have no streaming transport) in every position among unary ones
+	for _, st := range []struct {
+		label string
+		pos   []int // positions of streaming RPCs among 3
+	}{{"first", []int{0}}, {"middle", []int{1}}, {"last", []int{2}}, {"first-two", []int{0, 1}}, {"all", []int{0, 1, 2}}} {
+		st := st
+		out = append(out, buildCase{ID: "layout/streaming-rpc/" + st.label, TS: true, Files: func(pkg, goName string) []*spec.File {
+			return oneFile(pkg, goName, func(f *spec.File) {
+				f.Messages = []*spec.Message{{Name: "P", Fields: []*spec.Field{spec.F("id", 1, spec.String)}}, {Name: "R", Fields: []*spec.Field{spec.F("ok", 1, spec.Bool)}}}
+				svc := &spec.Service{Name: "FeedService", BasePath: spec.S("/feed"), Headers: []spec.Header{{Name: "X-Feed", Type: "string", Required: true}}}
+				for i := 0; i < 3; i++ {
+					m := &spec.Method{Name: fmt.Sprintf("Call%d", i), In: "." + pkg + ".P", Out: "." + pkg + ".R", HTTP: &spec.HTTP{Path: fmt.Sprintf("/c%d", i), Verb: 2}, Headers: []spec.Header{{Name: fmt.Sprintf("X-M%d", i), Type: "string", Required: true}}}
+					for _, p := range st.pos {
+						if p == i {
+							m.ServerStream = true
+							m.ClientStream = i%2 == 1
+						}
+					}
+					svc.Methods = append(svc.Methods, m)
+				}
+				f.Services = []*spec.Service{svc}
+			})
+		}})
+	}
 	out = append(out, buildCase{ID: "layout/no-config-at-all", TS: true, Files: func(pkg, goName string) []*spec.File {
 		return oneFile(pkg, goName, func(f *spec.File) {
 			f.Messages = []*spec.Message{{Name: "P", Fields: []*spec.Field{spec.F("id", 1, spec.String)}}}
